@@ -54,8 +54,12 @@ Print Assumptions C09_algebra_laws.
 
 Theorem C09_conjugate : forall w x y z, 0 < w*w + x*x + y*y + z*z ->
   C09_conj_R w x y z = Val (qconj [w;x;y;z]) /\ C09_q_conj_R w x y z = Val (qconj [w;x;y;z]) /\
-  C09_conj_S_R w x y z = Val [-x; -y; -z; w].
-Proof. intros w x y z H. split; [exact (conj_spec w x y z H)|]. split; [exact (q_conj_spec w x y z)|exact (conj_S_spec w x y z H)]. Qed.
+  C09_conj_S_R w x y z = Val [-x; -y; -z; w] /\
+  (forall a b c d, C09_q_conj_rows_R a b c d w x y z = Val (qconj [a;b;c;d] ++ qconj [w;x;y;z])).
+Proof.
+  intros w x y z H. split; [exact (conj_spec w x y z H)|]. split; [exact (q_conj_spec w x y z)|].
+  split; [exact (conj_S_spec w x y z H)|]. intros a b c d. exact (q_conj_rows_spec a b c d w x y z).
+Qed.
 Print Assumptions C09_conjugate.
 
 (* left and right product matrices reproduce the product *)
